@@ -21,7 +21,7 @@ def main():
         path = os.path.join("/repo", c["file"])
         src = open(path).read()
         if src.count(c["old"]) != 1:
-            rows.append((c["property"], c["name"], "SKIP (pattern count %d)" % src.count(c["old"]), 0)); continue
+            rows.append((c["property"], c["name"], "SKIP (pattern count %d)" % src.count(c["old"]), 0)); print("%-4s %-45s %-13s" % rows[-1][:3]); continue
         try:
             open(path, "w").write(src.replace(c["old"], c["new"]))
             t = time.time()
